@@ -152,20 +152,27 @@ structure Variant where
       renewal flags a provisioner leaves unset against the authority-level claims before storing
       them (linkedca claims have no "unset") -/
   migrationKeepsGlobals : Bool
+  /-- D62 repair (commit 5596a41): `renewContext` answers 400 when the presented certificate's
+      validity period is not longer than the authority's backdate (the new certificate would be
+      expired when issued) -/
+  refuseShortValidity : Bool
   deriving DecidableEq, Repr
 
 /-- the tree before the two `fix:` commits -/
-def asCodedBefore : Variant := ⟨false, false, false, false, false, false⟩
+def asCodedBefore : Variant := ⟨false, false, false, false, false, false, false⟩
 /-- the tree after c93b602 (D9) and 33e7bf8 (D17), before df3f6ee -/
-def fixedD9D17 : Variant := ⟨true, true, false, false, false, false⟩
+def fixedD9D17 : Variant := ⟨true, true, false, false, false, false, false⟩
 /-- the tree after df3f6ee, before ce0e905 (C09-SKI) -/
-def beforeSKIFix : Variant := ⟨true, true, true, false, false, false⟩
-/-- /repo HEAD: the gate repairs (c93b602, 33e7bf8, df3f6ee) and the C09-SKI repair (ce0e905) -/
-def repaired : Variant := ⟨true, true, true, true, false, false⟩
+def beforeSKIFix : Variant := ⟨true, true, true, false, false, false, false⟩
+/-- the tree before 5596a41 (a certificate not longer than the backdate was renewed) -/
+def beforeBackdateFix : Variant := ⟨true, true, true, true, false, false, false⟩
+/-- /repo HEAD: the gate repairs (c93b602, 33e7bf8, df3f6ee), the C09-SKI repair (ce0e905) and the
+    backdate repair (5596a41) -/
+def repaired : Variant := ⟨true, true, true, true, false, false, true⟩
 /-- HEAD plus the key check on rekey that was considered and not applied -/
-def withKeyCheck : Variant := ⟨true, true, true, true, true, false⟩
+def withKeyCheck : Variant := ⟨true, true, true, true, true, false, true⟩
 /-- HEAD plus the proposed migration repair -/
-def withMigrationRepair : Variant := ⟨true, true, true, true, false, true⟩
+def withMigrationRepair : Variant := ⟨true, true, true, true, false, true, true⟩
 
 /-- THE ONE-LINE SWITCH: which variant the driver (and so the correspondence check) runs. -/
 def current : Variant := repaired
@@ -338,6 +345,7 @@ structure GateIn where
 inductive Reason where
   | revocationCheckFailed | revoked | provisionerNotFound | uninitialized
   | notImplemented | renewDisabled | notYetValid | expired | customRefused | keyRejected
+  | notLongerThanBackdate
   deriving DecidableEq, Repr
 
 inductive Decision where
@@ -450,6 +458,8 @@ def renew (v : Variant) (env : Env) (i : GateIn) (old : Cert) (pk : Option Str) 
   | .val (.refuse r) => .val (.refused r)
   | .val .allow =>
     let lifetime := (old.notAfter - old.notBefore) - env.backdate
+    -- 5596a41: `if lifetime <= 0 { 400 }`, after the gate, before the template is built
+    if v.refuseShortValidity && Decidable.decide (lifetime ≤ 0) then .val (.refused .notLongerThanBackdate) else
     match caSign env (renewTemplate v old pk) lifetime with
     | .error e => .val (.signError e)
     | .ok c => .val (.issued c)
